@@ -223,6 +223,15 @@ Definition delay_block (cs : client_state) : N :=
   | BSC => (cs_nvalidators cs / 2 + 1) mod two64
   end.
 
+(** [GetDelayTime] (not used by the proof verification of these two clients; transcribed for completeness of the
+    anchored file): ETH returns the [TimeDelay] field, BSC [uint64(len(Validators)/2+1) * BlockInteval] (uint64
+    product, wraps). *)
+Definition delay_time (k : client_kind) (nvalidators block_interval time_delay : N) : N :=
+  match k with
+  | ETH => time_delay
+  | BSC => (((nvalidators / 2 + 1) mod two64) * block_interval) mod two64
+  end.
+
 (** What [GetConsensusState] finds under a store key: nothing, bytes that do not unmarshal to this
     client's [*ConsensusState], or a consensus state with this [Root] field (any length). *)
 Inductive cons_entry := ConsAbsent | ConsBad | ConsRoot (root : bytes).
